@@ -404,7 +404,13 @@ class PanicInventory:
             elif base[0] == "bytes":
                 k = len(base[1])
             return (k, 255 if iv.is_bytes(base) or base[0] == "bytes" else None)
-        if it[1] == "copied":
+        if it[1] == "array" and it[2][0] in ("array", "bytes"):
+            # [a, b, c, d].into_iter(): as many items as elements, each bounded by its own interval
+            xs = [mk_int(x, "u8") if isinstance(x, int) else x for x in it[2][1]]
+            his = [iv.of(x) for x in xs]
+            m = max((h[1] for h in his), default=0) if all(h is not None and h[1] is not None for h in his) else None
+            return (len(xs), m)
+        if it[1] in ("copied", "cloned"):
             return self.iter_bounds(ev, st, iv, it[2])
         if it[1] == "map":
             k, m = self.iter_bounds(ev, st, iv, it[2])
@@ -417,6 +423,7 @@ class PanicInventory:
             ci = _CI()
             ci.ev, ci.st = ev, st.fork()
             ci.w = "?"
+            by_value = by_value or (it[2][0] == "iter" and it[2][1] == "array")
             elem = (("sym", "elem", "u8") if by_value else ("ref", ("val", ("sym", "elem", "u8"), ()), False)) if m == 255 else None
             if elem is None:
                 return (k, None)
